@@ -18,7 +18,8 @@ EXTENDS Integers, TLC
 
 CONSTANTS SpinSync,   \* world configured with force_spin_sync
           ObliqOn,    \* tides configured with obliquity_tides_on
-          NVals       \* number of alternative values per input (value ids 0..NVals-1)
+          NVals,      \* number of alternative values per input (value ids 0..NVals-1)
+          Bug         \* "none", or a deliberately broken cascade (negative controls of the model)
 
 VARIABLES e, obl, orb, spin, tm, tw,    \* inputs: eccentricity, obliquity, orbital frequency, spin, mantle strength source, time
           sus, eccRes, oblRes, terms,   \* memos of TidesBase
@@ -67,7 +68,8 @@ TidesOSC(m, ne, nobl, norb, nspin, eccCh, oblCh, orbCh, spinCh) ==
       need0 == eccUpd \/ oblUpd
       doTerms == (spinCh \/ orbCh \/ need0) /\ nspin # NoSpin
       m4 == IF doTerms THEN [m3 EXCEPT !.terms = <<m3.eccRes, m3.oblRes, norb, nspin>>, !.ufreq = <<norb, nspin>>] ELSE m3
-      m5 == IF doTerms THEN CalcCompl(m4) ELSE m4
+      \* negative control "no_compl_on_freq": new tidal frequencies are not handed to the rheology
+      m5 == IF doTerms /\ Bug # "no_compl_on_freq" THEN CalcCompl(m4) ELSE m4
   IN IF need0 \/ doTerms THEN Collapse(m5, ne, norb) ELSE m5
 
 WorldOSC(m, ne, nobl, norb, nspin, eccCh, oblCh, orbCh, spinCh) ==
@@ -78,7 +80,8 @@ WorldOSC(m, ne, nobl, norb, nspin, eccCh, oblCh, orbCh, spinCh) ==
 StrengthChanged(m, src, ne, norb) ==
   LET m1 == [m EXCEPT !.visc = src]
       m2 == CalcCompl(m1)
-  IN IF m2.compl # None THEN Collapse(m2, ne, norb) ELSE m2
+  \* negative control "no_collapse_on_strength": a strength change recomputes the compliances but does not collapse the modes
+  IN IF m2.compl # None /\ Bug # "no_collapse_on_strength" THEN Collapse(m2, ne, norb) ELSE m2
 
 SetMemos(m) == /\ sus' = m.sus /\ eccRes' = m.eccRes /\ oblRes' = m.oblRes /\ terms' = m.terms /\ ufreq' = m.ufreq
                /\ visc' = m.visc /\ compl' = m.compl /\ coll' = m.coll /\ deriv' = m.deriv
